@@ -269,6 +269,26 @@ def check_reward(ctx, ad: Adapter, episodes_quick: int = 150, episodes_thorough:
             inexact = True
             ctx.count("inexact-reward-batches")
             real = [float(v) * rl.SCALE for v in env._get_reward(ep.td, acts).flatten().tolist()]
+        # "from the original instance data and the executed action sequence alone": the same solution scored against a
+        # FRESHLY RESET state of the instance (what search methods, dataset evaluation and baselines do) must get the
+        # same reward as against the final state of the episode that produced it
+        if not inexact:
+            try:
+                real_reset = ad.real_reward_ticks(env, env.reset(ad.to_td(insts)), acts)
+            except Exception:  # noqa: BLE001  (envs whose reward needs the episode's own bookkeeping)
+                real_reset = None
+            if real_reset is not None and list(real_reset) != list(real):
+                if getattr(ad, "reward_state_free", True):
+                    r_bad = next(r for r in range(B) if real_reset[r] != real[r])
+                    ctx.violation(f"{ad.name}:reward-depends-on-episode-state",
+                                  "get_reward(reset state, actions) differs from get_reward(final state, actions): the reward is not a "
+                                  "function of the instance data and the action sequence alone",
+                                  {"inst": insts[r_bad], "actions": ep.actions[r_bad], "reward_final_state_ticks": real[r_bad],
+                                   "reward_reset_state_ticks": real_reset[r_bad]})
+                else:
+                    ctx.count(f"{ad.name}.reward-differs-on-reset-state")
+            elif real_reset is not None:
+                ctx.count(f"{ad.name}.reward-same-on-reset-state")
         lines = [ad.line("episode", insts[r], ep.actions[r]) for r in range(B)]
         replies = ctx.driver.ask_many(lines)
         for r in range(B):
